@@ -563,6 +563,24 @@ def corpus():
     add([("f1", False, [["user", "i1"], ["set", "y", C(0)],
                         ["while", ["lt", V("y"), C(2)], [["do", 2], INC("y")]], ["bot", "b2"]]),
          ("s1", True, [["exec", "a1", "", "y"]])])
+    # 24 then-branch that ENDS with a loop (its last element is the back jump), else branch present, both outcomes
+    add([("f1", False, [["user", "i1"], ["exec", "a1", "r", ""], ["set", "x", C(0)],
+                        ["if", ["eq", V("r"), C(1)],
+                         [["while", ["lt", V("x"), C(2)], [["bot", "b1"], INC("x")]]],
+                         [["bot", "b2"]]],
+                        ["bot", "b3"]])])
+    # 25 then-branch that ends with a when / else when group, else branch present
+    add([("f1", False, [["user", "i1"], ["exec", "a1", "r", ""],
+                        ["if", ["eq", V("r"), C(1)],
+                         [["bot", "b1"], ["when", [["i2", [["bot", "b2"]]], ["i3", [["bot", "b3"]]]]]],
+                         [["bot", "b4"]]],
+                        ["bot", "b5"]])])
+    # 26 then-branch ending with a nested if/else whose then-branch ends with a loop
+    add([("f1", False, [["user", "i1"], ["exec", "a1", "r", ""], ["set", "x", C(0)],
+                        ["if", ["eq", V("r"), C(1)],
+                         [["if", ["eq", V("x"), C(0)], [["while", ["lt", V("x"), C(1)], [["bot", "b1"], INC("x")]]], [["bot", "b2"]]]],
+                         [["bot", "b3"]]],
+                        ["bot", "b4"]])])
     return P
 
 
